@@ -254,7 +254,7 @@ def oracle(s, line, nvd, ncd):
 def run(ck):
     ck.level = 'proof'
     proof_ok, failing = ck.proof_stage('MpVerif.C05.Props', 'MpVerif/C05/Props.lean', 'C05_',
-                                        ['MpVerif/C05/*.lean', 'MpVerif/C14/Model*.lean', 'MpVerif/C14/Lemmas*.lean'], expect_min=14)
+                                        ['MpVerif/C05/*.lean', 'MpVerif/C14/Model*.lean', 'MpVerif/C14/Lemmas*.lean'], expect_min=19)
     ck.log('proof stage: ok=%s failing=%s' % (proof_ok, failing[:12]))
     if ck.tier == 'thorough' and proof_ok:
         bad = ck.leanchecker(['MpVerif.C05.Props'])
@@ -314,6 +314,7 @@ def run(ck):
     n_roundtrip_ok = 0
     n_reals = 0
     n_good = 0
+    n_goodsuf = 0
     distinct = set()
     for k, ((s, nvd, ncd), il, ml) in enumerate(zip(cases, impl, model)):
         fam[s['family']] = fam.get(s['family'], 0) + 1
@@ -327,8 +328,12 @@ def run(ck):
             continue
         ib, _, ir = il.partition(' || ')
         mb, _, mr = ml.partition(' || ')
-        mg = re.search(r' good=(\d+)/(\d+) ', mb)
+        mg = re.search(r' good=(\d+)/(\d+) goodsuf=(\d+)/(\d+) ', mb)
         mb = mb.replace(mg.group(0), ' ') if mg else mb
+        if mg and mg.group(3) != mg.group(4):
+            corr_bad.append((cl, '', mb[:80], 'codec hypothesis GoodSufTok fails on the printed text of a suffix value: %s' % mg.group(0)))
+        elif mg:
+            n_goodsuf += int(mg.group(3))
         # codec hypothesis GoodNum, evaluated by the Lean driver on the text of every vector value
         finite = sum(1 for x in s['duals'] + s['primals'] if math.isfinite(x))
         if not mg or int(mg.group(1)) != finite or int(mg.group(2)) != len(s['duals']) + len(s['primals']):
@@ -390,12 +395,12 @@ def run(ck):
                 'mp::ReadSOLFile; distinct = distinct event lists read back; compared with writeSol/readSol of the Lean model (bytes and events) and with the intent',
         'traces_validated_against_impl': len(cases) - len(corr_bad),
         'generator_families': fam, 'files_bytes_equal_model': n_bytes_equal, 'roundtrip_ok': n_roundtrip_ok, 'failure_classes': classes,
-        'reals_in_vectors': n_reals, 'reals_satisfying_GoodNum_hypothesis': n_good,
+        'reals_in_vectors': n_reals, 'reals_satisfying_GoodNum_hypothesis': n_good, 'suffix_reals_satisfying_GoodSufTok_hypothesis': n_goodsuf,
         'codec_test': {'label': 'TEST (not proved): fmt {:.16} -> strtod/decstring on doubles', 'doubles': int(m.group(1)) if m else 0, 'bad': int(m.group(2)) if m else None},
         'correspondence': {'lines_compared_model_vs_impl': len(cases), 'disagreements': len(corr_bad)}, 'exhaustive': False,
         'model_variant': 'patched' if C14.FX[0] else 'as-is',
     })
-    ck.notes.append('PARTIAL: message block, vectors and non-finite handling are proved for all inputs; the composition of all sections is proved on concrete solutions only and otherwise covered by the per-run correspondence (sampled); the numeric codec is tested')
+    ck.notes.append('C05_roundtrip is proved for all solutions meeting the explicit side conditions Wf (model level, modulo the number codec: hypotheses GoodNum/GoodSufTok on the printed text are evaluated on every real of the run; the numeric half strtod(enc x) ~ x is TESTED, not proved); agreement of the models with the real writer and reader is sampled')
     ck.assumptions += [
         'number codec: the text fmt prints for a real ({:.16}) is read by strtod as a value within the property tolerance: TESTED per run, not proved',
         'the theorem is about token equality under the explicit hypothesis GoodNum/GoodSufNum on the printed text (checked on every generated real by the run)',
